@@ -1,5 +1,8 @@
 import PestModel.Model.Debugger
 import PestModel.Lemmas.Debugger
+import PestModel.Lemmas.DebuggerInv
+import PestModel.Lemmas.DebuggerCtrl
+import PestModel.Lemmas.DebuggerTerm
 /-!
 C17 — the debugger reports exactly the breakpoint hits of the parse under any timing.
 
@@ -14,6 +17,11 @@ set and any controller command history. -/
 def Init (s0 : State) : Prop :=
   ∃ entries ok ab cap bps todo, 0 < cap ∧ s0 = State.init entries ok ab cap bps todo
 
+/-- every reachable state satisfies the global invariant. -/
+theorem inv_of_reach {s0 s : State} (h0 : Init s0) (hr : Reach s0 s) : Inv s := by
+  obtain ⟨entries, ok, ab, cap, bps, todo, hcap, rfl⟩ := h0
+  exact Inv_reach (Inv_init entries ok ab cap bps todo hcap) hr
+
 /-- the breakpoint event the thread has decided to send and not yet sent. -/
 def pendingEv (s : State) (t : Thread) : List Event :=
   match t.pc with
@@ -25,13 +33,13 @@ the run in progress (sent, plus the one being sent) are exactly the entries of t
 whose rule was in the breakpoint set when the entry was checked. -/
 theorem sent_eq_expected (s0 s : State) (t : Thread) (h0 : Init s0) (hr : Reach s0 s) (hc : s.cur = some t) :
     t.sent.filter isBreakpoint ++ pendingEv s t = expectedEvents s.entries s.bpsAt := by
-  sorry
+  exact (inv_of_reach h0 hr).expd t hc
 
 /-- **Delivery is FIFO and lossless**: what the controller has received followed by what is still in
 the channel is what the run has sent. -/
 theorem received_prefix (s0 s : State) (t : Thread) (h0 : Init s0) (hr : Reach s0 s) (hc : s.cur = some t) :
     s.received ++ t.chan = t.sent := by
-  sorry
+  exact (inv_of_reach h0 hr).fifo t hc
 
 /-- **The final event** comes after all breakpoint entries of the complete parse and is the plain
 parse's outcome; nothing follows it. (A cancelled run sends no final event.) -/
@@ -39,24 +47,33 @@ theorem final_event (s0 s : State) (t : Thread) (ev : Event) (h0 : Init s0) (hr 
     (hm : ev ∈ t.sent) (hb : isBreakpoint ev = false) :
     s.bpsAt.length = s.entries.length ∧
       t.sent = expectedEvents s.entries s.bpsAt ++ [if s.finalOk then Event.eof else Event.error] := by
-  sorry
+  have hi := inv_of_reach h0 hr
+  have hp := hi.pcData t hc
+  have hnb : ¬ allBp t.sent := fun h => by simp [h ev hm] at hb
+  have hfs : FinalShape s t.sent := by
+    cases hpc : t.pc <;> simp [hpc, PcData, hnb] at hp <;> exact hp
+  exact hfs
 
 /-- **One event per continue**: a run never has sent more breakpoint events than one plus the
 number of wake-ups it was issued. -/
 theorem one_per_continue (s0 s : State) (t : Thread) (h0 : Init s0) (hr : Reach s0 s) (hc : s.cur = some t) :
     (t.sent.filter isBreakpoint).length ≤ t.unparks + 1 := by
-  sorry
+  have ht := (inv_of_reach h0 hr).tok t hc
+  unfold TokOk at ht
+  split at ht <;> split at ht <;> omega
 
 /-- **Nothing while waiting for a continue**: a thread parked after a breakpoint event takes no step
 (in particular sends nothing) until it is woken. -/
 theorem quiet_while_waiting (s : State) (t : Thread) (k : Nat) (hc : s.cur = some t) (hp : t.pc = .park k)
     (ht : t.token = false) : parserStep s = none := by
-  sorry
+  simp [parserStep, hc, hp, ht]
 
 /-- while a run is being aborted the stop flag stays set (the abstraction used by `abortCheck`). -/
 theorem abort_isDone (s0 s : State) (t : Thread) (n : Nat) (o : Outcome) (h0 : Init s0) (hr : Reach s0 s)
     (hc : s.cur = some t) (hp : t.pc = .abortCheck n o) : s.isDone = true := by
-  sorry
+  have hd := (inv_of_reach h0 hr).pcData t hc
+  simp [hp, PcData] at hd
+  exact hd.1
 
 /-- `n` steps of the parser thread alone. -/
 def parserIter : Nat → State → Option State
@@ -75,7 +92,13 @@ finitely many steps, none of which blocks. -/
 theorem restart_terminates_partial (s0 s : State) (h0 : Init s0) (hr : Reach s0 s) (hj : s.cpc = .runJoin)
     (hcl : CleanRestart s) :
     ∃ n s' t p, parserIter n s = some s' ∧ s'.cur = some t ∧ t.pc = .exited p := by
-  sorry
+  have hh := halts_of_inv (inv_of_reach h0 hr) hj hcl
+  clear hr hj hcl
+  induction hh with
+  | done hc hpc => exact ⟨0, _, _, _, rfl, hc, hpc⟩
+  | step hs _ ih =>
+    obtain ⟨n, s'', t, p, hn, hc, hpc⟩ := ih
+    exact ⟨n + 1, s'', t, p, by simp [parserIter, hs, hn], hc, hpc⟩
 
 /-- the history `run, cont, run` on a parse with two breakpoint entries, capacity 1. -/
 def earlyContInit : State :=
@@ -97,7 +120,7 @@ theorem restart_deadlock_with_early_continue :
     let s := exec earlyContInit earlyContSched
     s.cpc = .runJoin ∧ controllerStep s = none ∧ parserStep s = none ∧
       (∃ t, s.cur = some t ∧ s.received ++ t.chan = t.sent ∧ t.pc = .send 2) ∧ s.cleanRestart = false := by
-  sorry
+  decide
 
 /-- non-vacuity: the hypotheses of `restart_terminates_partial` are met by a reachable state in which
 the thread is parked at a breakpoint whose event was received. -/
